@@ -24,7 +24,23 @@ class DevC(DevA):
     c_x = DeviceVar("x")
 
 
-CLASSES = {"A": DevA, "B": DevB, "C": DevC}
+class DevD(Device):
+    # the remaining struct formats: C longs and size_t (8 bytes natively), floating point, bool, several members with padding
+    d_B = DeviceVar("B", write=True)
+    d_l = DeviceVar("l", write=True)
+    d_h = DeviceVar("h", write=True)
+    d_L = DeviceVar("L", write=True)
+    d_f = DeviceVar("f", write=True)
+    d_N = DeviceVar("N")
+    d_t = DeviceVar("?", write=True)
+    d_Bq = DeviceVar("Bq", write=True)
+    d_I = DeviceVar("I", write=True)
+    d_d = DeviceVar("d", write=True)
+    d_HHI = DeviceVar("HHI")
+    d_b = DeviceVar("b", write=True)
+
+
+CLASSES = {"A": DevA, "B": DevB, "C": DevC, "D": DevD}
 
 
 def variables(cls):
